@@ -3,6 +3,7 @@
 Two parts: (1) sequential operation+fault histories (scenario / oracle / theories/C12/Model.v), described below;
 (2) one operation of a second thread (remove_rpc_object, make_*) racing with stop() in the creating thread
 (scenario_conc / oracle_conc / theories/C12/ConcModel.v, trace acceptance through C12.ConcCorr);
+(4) populations of running TASKS at remove_rpc_object / stop (scenario_tasks / oracle_tasks / theories/C12/TaskPop.v);
 (3) caller threads (blocking call, non-blocking call + wait, lock request; local proxy or a peer context over the fake
 network) racing with remove_rpc_object / stop of the object (scenario_call / oracle_call / theories/C12/CallModel.v, trace
 acceptance through C12.CallCorr): every call gets exactly one outcome, nothing of the call or the object is left behind.
@@ -975,6 +976,207 @@ def gen_call(rng):
     return op, callers, remote
 
 
+# ------------------------------------------------------------------------------------------------
+# task populations: running tasks of several shapes present at remove_rpc_object / stop
+# ------------------------------------------------------------------------------------------------
+TASK_SHAPES = ["sleep", "getsig", "getsig_timed", "loop", "slow", "raises"]
+
+
+def scenario_tasks(s, pop, start_order, plain, owner_ops, line_yields):
+    """pop: [(name idx, shape, receiver idx)] tasks made in this order; start_order: the order in which they are started (each
+    reaches its wait before the next is started: the order of the waiters on a shared receiver); plain: None or (receiver idx,
+    position in the start order) = an ordinary thread blocked in get_next_signal(None) on that receiver; owner_ops: sequence of
+    ("remove", name idx) ending with ("stop",), run by the creating thread.  All waits are QMI's own stoppable waits
+    (QMI_Task.sleep, get_next_signal inside a task, QMI_LoopTask), except the shape "slow", which finishes a plain sleep of
+    2 s after the stop request.  A stop()/remove that never returns shows up as deadlock / step-limit abort."""
+    import threading as real_threading
+    import warnings
+    import qmi  # noqa
+    import qmi.core.context as C
+    import qmi.core.rpc as R
+    import qmi.core.task as T
+    import qmi.core.pubsub as P
+    from qmi.core.config_defs import CfgQmi, CfgContext
+    from qmi.core.exceptions import QMI_TaskStopException, QMI_TimeoutException
+    logging.disable(logging.CRITICAL)
+    warnings.simplefilter("ignore")
+    real_threading.excepthook = lambda args: None
+    st = {"next": 0, "rel": [], "born": [], "names": {}}
+    obs = {"ops": [], "phase": "setup"}
+    s.obs = obs
+    s.recording = False
+    recvs = [P.QMI_SignalReceiver() for _ in range(3)]
+
+    class TSleep(T.QMI_Task):
+        def run(self):
+            while not self.stop_requested():
+                self.sleep(1.0)
+
+    class TGet(T.QMI_Task):
+        def __init__(self, task_runner, name, ri, timeout):
+            super().__init__(task_runner, name)
+            self.ri, self.tmo = ri, timeout
+
+        def run(self):
+            while True:
+                try:
+                    recvs[self.ri].get_next_signal(timeout=self.tmo)
+                except QMI_TimeoutException:
+                    pass
+
+    class TLoop(T.QMI_LoopTask):
+        def __init__(self, task_runner, name):
+            super().__init__(task_runner, name, loop_period=0.5)
+
+    class TSlow(T.QMI_Task):
+        def run(self):
+            while not self.stop_requested():
+                dsched.FAKE_TIME.sleep(0.5)
+            dsched.FAKE_TIME.sleep(2.0)            # ignores the stop request for a while
+
+    class TRaise(T.QMI_Task):
+        def run(self):
+            try:
+                self.sleep(1000.0)
+            except QMI_TaskStopException:
+                raise RuntimeError("on stop")
+
+    class Runner(T.QMI_TaskRunner):
+        def __init__(self, context, name, task_class, task_args, task_kwargs):
+            self.oid = st["next"]
+            st["next"] += 1
+            super().__init__(context, name, task_class, task_args, task_kwargs)
+            st["born"].append(self.oid)
+            st["names"][self.oid] = name
+
+        def release_rpc_object(self):
+            st["rel"].append(self.oid)
+            super().release_rpc_object()
+
+    ctx = C.QMI_Context("d", CfgQmi(contexts={"d": CfgContext(tcp_server_port=TPORT)}))
+    ctx.start()
+    proxies = {}
+    for (n, shape, ri) in pop:
+        name = NAMES[n]
+        if shape == "sleep":
+            proxies[n] = ctx.make_task(name, TSleep, task_runner=Runner)
+        elif shape in ("getsig", "getsig_timed"):
+            proxies[n] = ctx.make_task(name, TGet, ri, None if shape == "getsig" else 0.7, task_runner=Runner)
+        elif shape == "loop":
+            proxies[n] = ctx.make_task(name, TLoop, task_runner=Runner)
+        elif shape == "slow":
+            proxies[n] = ctx.make_task(name, TSlow, task_runner=Runner)
+        else:
+            proxies[n] = ctx.make_task(name, TRaise, task_runner=Runner)
+
+    def plain_body():
+        try:
+            recvs[plain[0]].get_next_signal(timeout=None)
+        except BaseException:
+            pass
+    k = 0
+    for pos in range(len(start_order) + 1):
+        if plain is not None and plain[1] == pos:
+            real_threading.Thread(target=plain_body, name="plain", daemon=True).start()
+            dsched.FAKE_TIME.sleep(0.01)
+        if pos < len(start_order):
+            proxies[pop[start_order[pos]][0]].start()
+            dsched.FAKE_TIME.sleep(0.01)
+            k += 1
+    if line_yields:
+        dsched.enable_line_yields([T._TaskThread.stop_task, T._TaskThread.wait_for_condition])
+
+    def alive():
+        th = {}
+        for t in s.threads:
+            if t.state != dsched.DONE and t.tid != 0:
+                kk = t.name.split(":")[-1]
+                th[kk] = th.get(kk, 0) + 1
+        return th
+    obs["threads_before"] = alive()
+    obs["t0"] = s.clock
+    obs["phase"] = "ops"
+    s.recording = True
+    for op in owner_ops:
+        obs["current_op"] = list(op)
+        try:
+            if op[0] == "remove":
+                ctx.remove_rpc_object(proxies[op[1]])
+            else:
+                ctx.stop()
+            obs["ops"].append(["ok"])
+        except dsched.Deadlock:
+            raise
+        except BaseException as e:
+            obs["ops"].append(["exc", type(e).__name__])
+    s.recording = False
+    obs["phase"] = "after"
+    obs["t1"] = s.clock
+    obs["rel"] = list(st["rel"])
+    obs["born"] = list(st["born"])
+    obs["threads"] = {kk: v for kk, v in alive().items() if kk in ("_RpcThread", "_TaskThread", "_EventDrivenThread")}
+    obs["handlers"] = list(ctx._message_router._address_to_messagehandler_map.keys())
+    obs["objmap"] = [(kk, v is not None) for kk, v in ctx._rpc_object_map.items()]
+    obs["active"] = bool(ctx._active)
+    try:
+        c2 = C.QMI_Context("d", CfgQmi(contexts={"d": CfgContext(tcp_server_port=TPORT)}))
+        c2.start()
+        c2.stop()
+        obs["new_context"] = ["ok"]
+    except dsched.Deadlock:
+        raise
+    except BaseException as e:
+        obs["new_context"] = ["exc", type(e).__name__]
+    obs["phase"] = "done"
+    return obs
+
+
+def oracle_tasks(pop, owner_ops, res):
+    o = res.get("obs") or {}
+    if res["status"] in ("deadlock", "abort", "hang"):
+        return ("tasks:never-returns",
+                "%s never returns (%s) with the running tasks %r present (owner operations finished before: %r); task threads stay alive, "
+                "no new context can be started" % (
+                    "/".join(str(x) for x in (o.get("current_op") or ["?"])), res["status"], [(NAMES[n], sh, "rcv%d" % ri) for n, sh, ri in pop],
+                    o.get("ops")))
+    if res["status"] != "ok":
+        return "tasks:%s" % res["status"], "run did not finish (%s): %s" % (res["status"], (res.get("trace") or "")[-400:])
+    if any(x != ["ok"] for x in o["ops"]):
+        return "tasks:op-raised", "an owner operation raised: %r" % (o["ops"],)
+    if o["t1"] - o["t0"] > 10.0:
+        return "tasks:slow", "remove/stop took %.1f s of virtual time" % (o["t1"] - o["t0"])
+    cnt = {}
+    for x in o["rel"]:
+        cnt[x] = cnt.get(x, 0) + 1
+    if sorted(cnt) != sorted(o["born"]) or any(v != 1 for v in cnt.values()):
+        return "tasks:release", "constructed %r, release calls %r (want each exactly once)" % (o["born"], o["rel"])
+    if o["threads"]:
+        return "tasks:threads-left", "QMI threads remain after stop: %r" % (o["threads"],)
+    if [h for h in o["handlers"] if h != "$pubsub"] or o["objmap"] or o["active"]:
+        return "tasks:tables", "after stop: handlers %r objmap %r active %r" % (o["handlers"], o["objmap"], o["active"])
+    if o["new_context"] != ["ok"]:
+        return "tasks:new-context", "a new context can not be started and stopped afterwards: %r" % (o["new_context"],)
+    return None
+
+
+def gen_tasks(rng):
+    n = rng.choice([1, 2, 2, 3, 3, 4])
+    names = rng.sample([1, 2, 3, 4], n)
+    shared = rng.random() < 0.6
+    pop = []
+    for nm in names:
+        shape = rng.choice(["getsig"] * 4 + TASK_SHAPES) if shared else rng.choice(TASK_SHAPES)
+        pop.append((nm, shape, 0 if (shared and rng.random() < 0.8) else rng.randint(0, 2)))
+    start_order = list(range(n))
+    rng.shuffle(start_order)
+    start_order = start_order[:rng.choice([n, n, n, max(0, n - 1)])]       # sometimes one task is never started
+    plain = (0, rng.randint(0, len(start_order))) if rng.random() < 0.3 else None
+    rem = [nm for nm in names if rng.random() < 0.35]
+    rng.shuffle(rem)
+    owner_ops = [("remove", nm) for nm in rem] + [("stop",)]
+    return pop, start_order, plain, owner_ops
+
+
 def _preload():
     import qmi  # noqa
     import qmi.core.context, qmi.core.context_singleton, qmi.core.rpc, qmi.core.messaging  # noqa
@@ -1359,6 +1561,9 @@ def run(ck):
         "stop() of the called object (line-level switch points inside RpcObjectManager.handle_message / stop, all functions of the "
         "worker thread class and remove_rpc_object; DFS with <= 2 preemptions on the one-caller scenario); other pairs "
         "(make||make, remove||remove, anything racing with start) are not explored",
+        "tasks: a task honours stop (woken with its stop flag set it ends) - explicit hypothesis of TaskPop.v, = property C11 + the task "
+        "code blocks only in QMI's own stoppable waits; the task shapes of the scenarios do (QMI_Task.sleep, get_next_signal inside a "
+        "task with and without timeout, QMI_LoopTask), one shape finishes a 2 s plain sleep first, one raises on stop",
         "the call model (CallModel.v) is proved by reflection for remove and stop with 1 and 2 callers; its trace acceptance is run for "
         "local callers only (runs through the peer context are judged by the oracle alone)",
         "the interleaving model (ConcModel.v) treats each region under _rpc_object_map_lock, each register/unregister and each manager.stop() "
@@ -1428,13 +1633,17 @@ def run(ck):
                   dict(rep, impl_outs=[o["out"] for o in obs], broken="correspondence C12.Corr.check_case"), found_input=bool(fl))
     run_conc(ck)
     run_call(ck)
+    run_tasks(ck)
     return ck.finish("seeded random operation+fault histories (length <= 12, both modes) + %d scripted, each under 1-3 random schedules; "
                      "non-trivial = at least one successful make or stop; distinct by (history, schedule); plus concurrent runs (remove / make "
                      "in a second thread racing with stop) under random, PCT and bounded-DFS schedules, all non-trivial" % len(SCRIPTED),
                      "Sequential clauses: proof over all histories + step-by-step correspondence.  Concurrent clause (an operation of another "
                      "thread racing with stop): proof for every interleaving of the atomic regions on the listed finite instances + trace acceptance "
                      "of sampled real schedules + oracle; weaker than the sequential clauses (finite instances, one racing operation, sampled schedules).  "
-                     "Calls through proxies racing with remove/stop: same kind of claim (CallModel.v, 1-2 callers proved, 1-3 sampled).")
+                     "Calls through proxies racing with remove/stop: same kind of claim (CallModel.v, 1-2 callers proved, 1-3 sampled).  "
+                     "Running tasks at remove/stop: proof for every population and order under the explicit hypothesis that a task honours stop "
+                     "(C11) + sampled populations of 1-4 tasks of six shapes, shared receivers in both waiter orders, a plain thread, every "
+                     "remove/stop order; a remove/stop that never returns is reported with its schedule.")
 
 
 def run_conc(ck):
@@ -1580,6 +1789,98 @@ def replay_call(c):
     return 1 if bad else 0
 
 
+def coq_tasks_case(pop, start_order, plain, owner_ops, ok, nrel):
+    cvs = [ri if shape in ("getsig", "getsig_timed") and i in start_order else 10 + i for i, (n, shape, ri) in enumerate(pop)]
+    ws = []
+    for pos in range(len(start_order) + 1):
+        if plain is not None and plain[1] == pos:
+            ws.append("(%d, None)" % plain[0])
+        if pos < len(start_order):
+            i = start_order[pos]
+            if pop[i][1] in ("getsig", "getsig_timed"):
+                ws.append("(%d, Some %d)" % (pop[i][2], i))
+    idx = {n: i for i, (n, _, _) in enumerate(pop)}
+    order = [idx[op[1]] for op in owner_ops if op[0] == "remove"]
+    order += [i for i in range(len(pop)) if i not in order]
+    return "(%s, %s, %s, %s, %d)" % (clist([str(x) for x in cvs]), clist(ws), clist([str(x) for x in order]), cbool(ok), nrel)
+
+
+def run_tasks(ck):
+    """Populations of running tasks (sleeping, waiting on an own or a SHARED receiver - in both orders of creation vs. beginning to
+    wait -, timed waits, loop tasks, a task that finishes its sleep first, a task raising on stop, a plain thread on the same
+    receiver, tasks never started) present at remove_rpc_object / stop, in every order."""
+    rng = ck.rng
+    nconf = 110 if ck.tier == "quick" else 2500
+    confs = [([(1, "getsig", 0), (2, "getsig", 0)], [1, 0], None, [("stop",)]),
+             ([(1, "getsig", 0), (2, "getsig", 0)], [0, 1], None, [("stop",)]),
+             ([(1, "getsig", 0), (2, "getsig", 0), (3, "getsig", 0)], [2, 0, 1], None, [("remove", 2), ("stop",)]),
+             ([(1, "getsig", 0)], [0], (0, 0), [("stop",)]),
+             ([(1, "getsig", 0)], [0], (0, 1), [("remove", 1), ("stop",)]),
+             ([(1, "sleep", 0), (2, "getsig_timed", 1), (3, "loop", 0), (4, "slow", 0)], [0, 1, 2, 3], None, [("remove", 3), ("stop",)]),
+             ([(1, "raises", 0), (2, "getsig", 2), (3, "getsig", 2)], [0, 2, 1], None, [("remove", 2), ("remove", 1), ("stop",)])]
+    confs += [gen_tasks(rng) for _ in range(nconf)]
+    jobs, meta = [], []
+    for ci, (pop, so, plain, oo) in enumerate(confs):
+        for j in range(3):
+            strat = "pct" if j == 2 else "random"
+            seed = rng.randrange(1 << 30)
+            ly = j != 1
+            jobs.append((scenario_tasks, (pop, so, plain, oo, ly), dict(strategy=strat, seed=seed, max_steps=30000,
+                                                                        switch_prob=rng.choice([0.2, 0.4, 0.7]))))
+            meta.append((pop, so, plain, oo, ly, strat, seed))
+    results = dsched.run_forked(jobs, nproc=16, wall_timeout=60.0)
+    terms, tmeta, flagged = [], [], {}
+    for (pop, so, plain, oo, ly, strat, seed), res in zip(meta, results):
+        o = res.get("obs") or {}
+        ck.note_case(("tasks", pop, so, plain, oo, ly, res.get("choices")), True)
+        ck.count("tasks:%s" % res["status"])
+        for (_, shape, _) in pop:
+            ck.count("tasks:shape:" + shape)
+        shared = [ri for (_, sh, ri) in pop if sh in ("getsig", "getsig_timed")]
+        if len(shared) != len(set(shared)) or (plain is not None and plain[0] in shared):
+            ck.count("tasks:several-waiters-on-one-receiver")
+        rep = {"tasks": True, "pop": [list(x) for x in pop], "start_order": so, "plain": plain, "owner_ops": [list(x) for x in oo],
+               "line_yields": ly, "strategy": strat, "seed": seed, "schedule": res.get("choices"), "status": res["status"]}
+        bad = oracle_tasks(pop, oo, res)
+        if bad:
+            ck.count("tasks-oracle-flagged")
+            ck.report(bad[0], "C12 fails on the implementation (running tasks at remove/stop): " + bad[1], rep)
+        returned = res["status"] == "ok" and all(x == ["ok"] for x in o.get("ops", []))
+        if res["status"] in ("ok", "deadlock", "abort", "hang"):
+            flagged[len(terms)] = bad
+            terms.append(coq_tasks_case(pop, so, plain, oo, returned, len(o.get("rel") or [])))
+            tmeta.append(rep)
+    ck.coverage["task_population_runs"] = len(meta)
+    badi = ck.run_model("C12.TaskCorr", "check_case", terms, "case", shard=200)
+    ck.coverage["task_population_runs_agreeing_with_model"] = len(terms) - len(badi)
+    for i in badi[:3]:
+        fl = flagged.get(i)
+        one = ck.model_eval("C12.TaskCorr", "check_case_notify_one %s" % terms[i])
+        ck.report("corr-tasks:%s" % ("oracle-fails" if fl else "model-differs"),
+                  "the model says every release step of this task population returns, the real remove/stop did not agree%s "
+                  "(the model of a wake-up of only ONE waiter predicts for this case: returns = %s)" % (
+                      ": " + fl[1] if fl else "; the property oracle passes on it", one[-40:]),
+                  dict(tmeta[i], broken="correspondence C12.TaskCorr.check_case"), found_input=bool(fl))
+
+
+def replay_tasks(c):
+    _preload()
+    pop = [tuple(x) for x in c["pop"]]
+    oo = [tuple(x) for x in c["owner_ops"]]
+    plain = tuple(c["plain"]) if c.get("plain") else None
+    kw = dict(strategy="replay", schedule=list(c["schedule"]), max_steps=30000) if c.get("schedule") is not None \
+        else dict(strategy=c["strategy"], seed=c["seed"], max_steps=30000)
+    res = dsched.run_forked([(scenario_tasks, (pop, list(c["start_order"]), plain, oo, c["line_yields"]), kw)], nproc=1, wall_timeout=60.0)[0]
+    o = res.get("obs") or {}
+    print("status:", res["status"], res.get("info") or "")
+    print("tasks (name, shape, receiver):", [(NAMES[n], sh, ri) for n, sh, ri in pop], " started in order:", c["start_order"], " plain thread:", plain)
+    print("owner operations:", oo, "->", o.get("ops"), " blocked in:", o.get("current_op") if res["status"] != "ok" else None)
+    print("threads before:", o.get("threads_before"), " after:", o.get("threads"), " released:", o.get("rel"), " new context:", o.get("new_context"))
+    bad = oracle_tasks(pop, oo, res)
+    print("oracle:", bad or "property holds on this schedule")
+    return 1 if bad else 0
+
+
 def replay_conc(c):
     _preload()
     pop = [tuple(x) for x in c["pop"]]
@@ -1604,6 +1905,8 @@ def replay(rep):
         return replay_conc(c)
     if c.get("call"):
         return replay_call(c)
+    if c.get("tasks"):
+        return replay_tasks(c)
     _preload()
     ops = [tuple(o) for o in c["ops"]]
     kw = dict(strategy="replay", schedule=list(c["schedule"])) if c.get("schedule") else dict(strategy=c.get("strategy", "random"), seed=c.get("seed", 0))
